@@ -540,6 +540,12 @@ class X:
             return c, "bool", b
         if name == "str":
             return "tt", "str", []
+        if name == "min" and len(e.args) == 1 and not e.keywords and isinstance(e.args[0], (ast.GeneratorExp, ast.ListComp)):
+            c, t, b = self.e_ListComp(e.args[0], env)
+            if t != ("list", "int"):
+                fail(e, "min of %r" % (t,))
+            nm = self.ctx.fresh()
+            return nm, "int", b + [(nm, "py_min %s" % c, "cbind")]
         if name == "max" and len(e.args) == 1 and len(e.keywords) == 1 and e.keywords[0].arg == "default":
             c, t, b = self.tx(e.args[0], env)
             d, td, bd = self.tx(e.keywords[0].value, env)
@@ -1326,6 +1332,13 @@ TARGETS = [
            cls="SystemW", ret="bool", state=W_STATE),
         Fn("_inference", "py_SystemW_inference", [("query", "cond"), ("weakly", "bool"), ("deadline", "deadline")],
            cls="SystemW", ret="bool", state=W_STATE + [("belief_base", "es_belief_base", "bb"), ("smt_solver", "es_smt_solver", "str")]),
+    ]),
+    dict(out="SrcLex", file="inference/lex_inf.py", requires=["SrcCond"], funcs=[
+        Fn("_rec_inference", "py_LexInf_rec_inference",
+           [("hard_constraints_v", "wcnf"), ("hard_constraints_f", "wcnf"), ("partition_index", "int"), ("deadline", "deadline")],
+           cls="LexInf", ret="bool", state=W_STATE),
+        Fn("_inference", "py_LexInf_inference", [("query", "cond"), ("weakly", "bool"), ("deadline", "deadline")],
+           cls="LexInf", ret="bool", state=W_STATE + [("belief_base", "es_belief_base", "bb"), ("smt_solver", "es_smt_solver", "str")]),
     ]),
     dict(out="SrcP", file="inference/p_entailment.py", requires=["SrcCond", "SrcCons"], funcs=[
         Fn("_inference", "py_PEntailment_inference", [("query", "cond"), ("weakly", "bool"), ("deadline", "deadline")],
